@@ -196,24 +196,6 @@ Proof.
 Qed.
 
 (* ---------------------------------------------------------------------------------------------- *)
-(* the required balances of an order: at most one entry for the base and one for the quote symbol, positive *)
-Definition req_form (p : pair) (req : vmap) : Prop :=
-  exists rb rq, req = rb ++ rq /\
-    (rb = [] \/ exists v, 0 < v /\ rb = [(fst p, v)]) /\ (rq = [] \/ exists v, 0 < v /\ rq = [(snd p, v)]).
-
-Lemma estimate_req_form c s o req : estimate_required c s o = Ok req -> req_form (o_pair o) req.
-Proof.
-  unfold estimate_required. destruct (get_pair_info c (o_pair o)) as [pi|]; cbn [rbind]; [|discriminate].
-  destruct (round_bu pi _ _) as [b q].
-  match goal with |- rbind ?r _ = _ -> _ => destruct r as [fee|]; cbn [rbind]; [|discriminate] end.
-  intros H; inversion H; subst; clear H. eexists. eexists. split; [reflexivity|]. split.
-  - destruct b as [bv|]; [|left; reflexivity]. destruct (Qltb bv 0) eqn:E; [|left; reflexivity].
-    right. apply Qltb_true in E. exists (- bv). split; [lra | reflexivity].
-  - match goal with |- (match ?x with Some _ => _ | None => _ end = _) \/ _ => destruct x as [qv|] end; [|left; reflexivity].
-    destruct (Qltb qv 0) eqn:E; [|left; reflexivity].
-    right. apply Qltb_true in E. exists (- qv). split; [lra | reflexivity].
-Qed.
-
 Lemma shorts_cons a k r rest :
   shorts_of a ((k, r) :: rest) =
   (if Qltb (avail a k - r) 0 then [(k, Qred (- (avail a k - r)))] else []) ++ shorts_of a rest.
